@@ -86,6 +86,7 @@ func authenticatedMap.Root
   -- the root of the current contents (a function of the contents alone, by the assumed trie contract)
   ensures r0 == arrof(rootof(m.tree.dom, m.tree.val))
 global lastKey Str         -- the serialized form of the key the current call works on (ghost)
+global lastVal Str         -- the serialized form of the value the current Set stores (ghost)
 
 func authenticatedMap.Set
   instantiate IdentifierType: [32]byte
@@ -93,12 +94,15 @@ func authenticatedMap.Set
   instantiate V: string
   opt sequential
   requires m != nil && inv(m) && unlocked(m.mutex) && m.n + 1 < 4611686018427387904         -- fewer than 2^62 keys
-  modifies m.tree.dom, m.tree.val, m.size.has, m.size.val, m.n, ghost(lastKey)
+  modifies m.tree.dom, m.tree.val, m.size.has, m.size.val, m.n, ghost(lastKey), ghost(lastVal)
   ghost after call authenticatedMap#keyToBytes: lastKey = str(r0)
+  ghost after call authenticatedMap#valueToBytes: lastVal = str(r0)
   ghost after call SMT.Update: m.n = m.n + ((result == nil && !has) ? 1 : 0)
   ensures unlocked(m.mutex)
   ensures r0 == nil ==> inv(m)
   ensures r0 == nil ==> m.tree.dom == upd(old(m.tree.dom), lastKey, true)
+  -- the key now holds the serialized value - whatever it held before, and also when the new value serializes to no bytes
+  ensures r0 == nil ==> sel(m.tree.val, lastKey) == lastVal
   ensures r0 == nil ==> m.n == old(m.n) + (sel(old(m.tree.dom), lastKey) ? 0 : 1)
   ensures r0 == nil ==> forall k Str :: k != lastKey ==> sel(m.tree.val, k) == sel(old(m.tree.val), k)
 
